@@ -53,6 +53,8 @@ fn main() {
         "c02_hook_inert" => c02::hook_inert(&v),
         "c03_checkout_paths" => c03::checkout_paths(&v),
         "c03_reset" => c03::reset(&v),
+        "c03_fold" => c03::fold(&v),
+        "c03_reset_hard" => c03::reset_hard(&v),
         "c04_split" => c04::split(&v),
         "c05_ranges" => c05::ranges(&v),
         "c05_upsert" => c05::upsert(&v),
